@@ -26,7 +26,7 @@ ASSUMPTIONS = ['refsm decoder (written from the Source Map V3 document) and its 
                'a line break inside a fragment only when the fragment is explicitly positioned or the break is its last character']
 BUDGET_S = {'quick': 60, 'thorough': 700}
 REQUIRED_HITS = ['sourcemap.write', 'encode_sourcemap', 'explicit_fragments_verified']
-FLOOR = {'quick': 3000, 'thorough': 60000}
+FLOOR = {'quick': 3000, 'thorough': 40000}
 
 
 def selfcheck(ctx):
